@@ -35,7 +35,7 @@ fn ksp_algos(yens: bool, tier: Tier) -> Vec<(Algo, Option<usize>)> {
     let sims: Vec<Option<Sim>> = vec![None, Some(Sim::AcceptAll), Some(Sim::EdgeCos(0.3)), Some(Sim::EdgeCos(0.99)), Some(Sim::DistCos(0.5)), Some(Sim::EdgeCos(1.0)), Some(Sim::DistCos(1.5))];
     // criteria that can never fire before the candidates run out (max below k, factor 0) are accepted by the configuration
     // like any other: the answer must still hold between one and k routes
-    let terms: Vec<Option<KTerm>> = tier.pick(vec![None, Some(KTerm::Factor(2)), Some(KTerm::MaxIter(1))], vec![None, Some(KTerm::Exact), Some(KTerm::MaxIter(5)), Some(KTerm::Factor(2)), Some(KTerm::MaxIter(1)), Some(KTerm::Factor(0)), Some(KTerm::MaxIter(0))]);
+    let terms: Vec<Option<KTerm>> = tier.pick(if yens { vec![None, Some(KTerm::Factor(2)), Some(KTerm::MaxIter(1))] } else { vec![None, Some(KTerm::Factor(2)), Some(KTerm::MaxIter(1)), Some(KTerm::MaxIter(0))] }, vec![None, Some(KTerm::Exact), Some(KTerm::MaxIter(5)), Some(KTerm::Factor(2)), Some(KTerm::MaxIter(1)), Some(KTerm::Factor(0)), Some(KTerm::MaxIter(0))]);
     let unders: Vec<Algo> = tier.pick(vec![Algo::Dijkstra], vec![Algo::Dijkstra, Algo::AStar(Some(1.0))]);
     let mut out = vec![];
     for k in ks.iter() {
@@ -91,6 +91,30 @@ fn specs(yens: bool, tier: Tier) -> Vec<GenSpec> {
     }
 }
 
+/// six vertices: the corridor 0 -> 1 -> 2 -> 5 (three edges, the least-cost route) and every subset of ten further edges
+/// through the side vertices 3 and 4 (detours that leave the corridor at 0, 1 or 2, shortcuts, ways back into it), under
+/// one (quick) or two (thorough) length tables that keep the corridor cheapest
+fn braided_corridors(tier: Tier) -> Vec<Net> {
+    let menu: [(usize, usize); 10] = [(1, 3), (3, 4), (4, 5), (1, 5), (3, 5), (0, 3), (3, 2), (2, 4), (0, 2), (4, 2)];
+    let tables: Vec<[f64; 10]> = tier.pick(vec![[1.0, 1.0, 1.0, 10.0, 5.0, 3.0, 1.0, 1.0, 2.5, 1.0]], vec![[1.0, 1.0, 1.0, 10.0, 5.0, 3.0, 1.0, 1.0, 2.5, 1.0], [1.0, 1.37, 1.74, 2.11, 2.48, 2.85, 3.22, 3.59, 3.96, 4.33]]);
+    let mut out = vec![];
+    for t in tables.iter() {
+        for mask in 0u32..1024 {
+            if mask.count_ones() < 3 {
+                continue;
+            }
+            let mut edges = vec![(0usize, 1usize, 1.0), (1, 2, 1.0), (2, 5, 1.0)];
+            for (i, (a, b)) in menu.iter().enumerate() {
+                if mask & (1 << i) != 0 {
+                    edges.push((*a, *b, t[i]));
+                }
+            }
+            out.push(Net { n: 6, edges, xy: None });
+        }
+    }
+    out
+}
+
 struct Space {
     nets: Vec<Net>,
     algos: Vec<(Algo, Option<usize>)>,
@@ -109,6 +133,15 @@ impl Space {
                     (Algo::SingleVia { k: 3, under: Box::new(Algo::AStar(Some(1.0))), sim: Some(Sim::EdgeCos(0.99)), term: None }, None),
                 ],
             )
+        } else if yens {
+            // Yen's second round: a three-edge least-cost route and k >= 3 make the algorithm branch off a route accepted in
+            // the first round (see braided_corridors)
+            let mut algos = vec![(Algo::Yens { k: 3, under: Box::new(Algo::Dijkstra), sim: Some(Sim::AcceptAll), term: None }, None)];
+            if tier == Tier::Thorough {
+                algos.push((Algo::Yens { k: 4, under: Box::new(Algo::Dijkstra), sim: None, term: None }, None));
+                algos.push((Algo::Yens { k: 1, under: Box::new(Algo::AStar(Some(1.0))), sim: Some(Sim::EdgeCos(0.99)), term: None }, Some(3)));
+            }
+            (braided_corridors(tier), algos)
         } else {
             (vec![], vec![])
         };
@@ -258,6 +291,24 @@ pub fn check_case(c: &Case, st: &mut Stats) -> Option<usize> {
                     st.pass("first_route_is_least_cost");
                 } else {
                     st.violation(&comp, "first_route_is_least_cost", size, || format!("first route {:?} costs {} but least cost is {}", route_ids(&routes[0]), got, bf[n - 1]), case);
+                }
+            }
+            // b': in every world, the first route is no dearer than the route the underlying search alone returns for the
+            // same query (if it is, a cheaper route exists and the first is not a least-cost one)
+            {
+                let under = match &c.algo {
+                    Algo::SingleVia { under, .. } | Algo::Yens { under, .. } => (**under).clone(),
+                    other => other.clone(),
+                };
+                if let Outcome::Ok { routes: plain, .. } = run_search(&si, &under, &orient, false, &json!({})) {
+                    if let Some(p) = plain.first() {
+                        let (got, alone) = (route_cost(&routes[0]), route_cost(p));
+                        if got <= alone || close(got, alone, w.tol()) {
+                            st.pass("first_route_no_dearer_than_the_underlying_search_alone");
+                        } else {
+                            st.violation(&comp, "first_route_no_dearer_than_the_underlying_search_alone", size, || format!("first route {:?} costs {} but the underlying search alone returns {:?} at {}", route_ids(&routes[0]), got, route_ids(p), alone), case);
+                        }
+                    }
                 }
             }
             // c: every route valid, loop free, correctly accumulated
